@@ -83,15 +83,6 @@ Proof.
   unfold decodes in H. now rewrite H.
 Qed.
 
-(* ------------------------------------------------------------------ afkak's own encoder, then its decoder *)
-Lemma c05_afkak_gzip_offsets clock k msgs off :
-  absolute off (expected clock k msgs 0 0) = map (fun om => (off, snd om)) (expected clock k msgs 0 0).
-Proof.
-  apply absolute_zero. apply Forall_forall. intros [o m] I.
-  assert (Io : In o (map fst (expected clock k msgs 0 0))) by (apply in_map_iff; exists (o, m); auto).
-  rewrite expected_zero_offsets in Io. apply in_map_iff in Io. destruct Io as (_ & <- & _). reflexivity.
-Qed.
-
 (* ------------------------------------------------------------------ dictionaries with unique keys lose nothing *)
 Section Dict.
   Context {K V : Type}.
@@ -125,19 +116,78 @@ End Dict.
 Lemma zeqb_spec a b : Z.eqb a b = true <-> a = b.
 Proof. apply Z.eqb_eq. Qed.
 
-(* distinct node ids / topic names: every broker and every topic of the response is in the result, in order *)
+(* distinct node ids, topic names and (per topic) partition ids: every broker, topic and partition of the response
+   is in the result, in order, nothing merged - no [dict_of] in the statement *)
+Lemma view_meta_topic_unique t :
+  NoDup (map smp_index (smt_parts t)) -> view_meta_topic t = plain_meta_topic t.
+Proof.
+  intros H. unfold view_meta_topic, plain_meta_topic. f_equal.
+  apply (dict_of_nodup Z.eqb zeqb_spec). now rewrite map_map.
+Qed.
+
 Lemma c05_metadata_unique r :
   wf_metadata r = true ->
   NoDup (map sb_node (sm_brokers r)) -> NoDup (map smt_name (sm_topics r)) ->
-  decode_metadata_response (enc_metadata r)
-  = Ok (map (fun b => (sb_node b, view_broker b)) (sm_brokers r),
-        map (fun t => (smt_name t, view_meta_topic t)) (sm_topics r)).
+  (forall t, In t (sm_topics r) -> NoDup (map smp_index (smt_parts t))) ->
+  decode_metadata_response (enc_metadata r) = Ok (plain_metadata r).
 Proof.
-  intros H Hb Ht. rewrite c05_metadata by assumption. unfold view_metadata.
+  intros H Hb Ht Hp. rewrite c05_metadata by assumption. unfold view_metadata, plain_metadata.
   rewrite (dict_of_nodup Z.eqb zeqb_spec) by now rewrite map_map.
   rewrite (dict_of_nodup zlist_eqb zlist_eqb_eq) by now rewrite map_map.
-  reflexivity.
+  do 2 f_equal. apply map_ext_in. intros t I. now rewrite view_meta_topic_unique by now apply Hp.
 Qed.
+
+Lemma c05_assignment_unique r :
+  wf_assignment r = true -> NoDup (map sas_topic (asg_topics r)) ->
+  decode_sync_group_member_assignment (enc_assignment r) = Ok (plain_assignment r).
+Proof.
+  intros H Hn. rewrite c05_assignment by assumption. unfold view_assignment, plain_assignment. do 2 f_equal.
+  apply (dict_of_nodup zlist_eqb zlist_eqb_eq). now rewrite map_map.
+Qed.
+
+(* ------------------------------------------------------------------ Message.timestamp_type (see Model.RespView) *)
+(* encode then decode with the field at its default 0: the identity, field included *)
+Lemma c05_tstype_roundtrip d orc now pm bs off :
+  pm_tstype pm = 0 -> plain (pm_msg pm) = true ->
+  py_encode_message now pm = Ok bs ->
+  py_decoded_set (dec_message (dec_set d orc) orc (Some bs) off) = [(off, mk_pymessage (wire_view now (pm_msg pm)) (pm_tstype pm))].
+Proof.
+  intros Ht Hp He. unfold py_encode_message in He.
+  rewrite (dec_message_intact _ orc now (pm_msg pm) bs off He Hp). rewrite Ht. reflexivity.
+Qed.
+
+(* with any other value the message that comes back differs from the one that was encoded *)
+Definition tstype_witness : pymessage := mk_pymessage (mkMessage 1 0 (Some [107]) (Some [118]) (Some 5)) 1.
+Lemma c05_tstype_refuted :
+  plain (pm_msg tstype_witness) = true /\
+  exists bs, py_encode_message 0 tstype_witness = Ok bs /\
+             py_decoded_set (dec_message (dec_set 1 marker_oracle) marker_oracle (Some bs) 7)
+             = [(7, mk_pymessage (pm_msg tstype_witness) 0)] /\
+             mk_pymessage (pm_msg tstype_witness) 0 <> tstype_witness.
+Proof.
+  split; [vm_compute; reflexivity|]. eexists. split; [vm_compute; reflexivity|]. split; [vm_compute; reflexivity|].
+  intros E. discriminate E.
+Qed.
+
+(* against the protocol: attributes bit 3 of a format-1 message IS its timestamp type; the decoder reports 0.
+   What is kept: the bit itself stays readable in Message.attributes *)
+Lemma c05_tstype_attr_kept rec orc m off :
+  wf_kmsg m = true ->
+  exists dm, dec_message rec orc (Some (enc_kmsg m)) off = ([(off, dm)], None) /\
+             (if (m_magic dm =? 1) then (m_attr dm / 8) mod 2 else 0) = k_tstype m.
+Proof.
+  intros H. unfold wf_kmsg in H. apply andb_prop in H. destruct H as [Hc Hcodec].
+  rewrite dec_message_spec by assumption. unfold dec_payload.
+  apply Z.eqb_eq in Hcodec. unfold ATTRIBUTE_CODEC_MASK. rewrite Hcodec. change (0 =? CODEC_NONE) with true. cbv iota.
+  eexists. split; [reflexivity|]. reflexivity.
+Qed.
+
+Definition tstype_log_append : kmsg := mk_kmsg 1 8 5 (Some [107]) (Some [118]).
+Lemma c05_tstype_spec_refuted :
+  wf_kmsg tstype_log_append = true /\ k_tstype tstype_log_append = 1 /\
+  map (fun op => pm_tstype (snd op))
+      (py_decoded_set (dec_message (dec_set 1 marker_oracle) marker_oracle (Some (enc_kmsg tstype_log_append)) 7)) = [0].
+Proof. repeat split; vm_compute; reflexivity. Qed.
 
 (* ------------------------------------------------------------------ layouts afkak does not support *)
 (* Produce v1 (throttle time, no log_append_time): decode_produce_response(api_version=1) applies the v2 layout *)
